@@ -169,6 +169,34 @@ def quadrature_table(fn_node):
             nested_nodes.add(id(n))
             if isinstance(n, ast.Assign) and len(n.targets) == 1 and isinstance(n.targets[0], ast.Name):
                 v = fold(n.value)
+                if v is None and isinstance(n.value, ast.Call) and ast.unparse(n.value.func).split(".")[-1] in ("array", "asarray") and n.value.args:
+                    # a regular table np.array([[...], ...]): row i holds the weights of the three corners when the row is applied
+                    # as a column, `abc * row[:, np.newaxis]` (checked below); otherwise a flat row multiplies coordinates
+                    v = fold(n.value.args[0])
+                    if isinstance(v, list) and len(v) >= 3 and all(isinstance(r, list) and len(r) == 3 and all(isinstance(x, Fraction) for x in r) for r in v):
+                        name_ = n.targets[0].id
+                        loopvars = set()
+                        for l_ in ast.walk(nf):
+                            if isinstance(l_, ast.For):
+                                it_ = l_.iter
+                                if isinstance(it_, ast.Call) and isinstance(it_.func, ast.Name) and it_.func.id == "enumerate" and it_.args:
+                                    it_ = it_.args[0]
+                                    tv = l_.target.elts[1] if isinstance(l_.target, ast.Tuple) and len(l_.target.elts) == 2 else None
+                                else:
+                                    tv = l_.target
+                                if isinstance(it_, ast.Name) and it_.id == name_ and isinstance(tv, ast.Name):
+                                    loopvars.add(tv.id)
+                        as_column = False
+                        for u_ in ast.walk(nf):
+                            if isinstance(u_, ast.Subscript) and isinstance(u_.slice, ast.Tuple) and len(u_.slice.elts) == 2 \
+                                    and isinstance(u_.slice.elts[0], ast.Slice) and ast.unparse(u_.slice.elts[1]) in ("np.newaxis", "None", "numpy.newaxis"):
+                                b_ = u_.value
+                                if (isinstance(b_, ast.Name) and b_.id in loopvars) or (isinstance(b_, ast.Subscript) and isinstance(b_.value, ast.Name) and b_.value.id == name_):
+                                    as_column = True
+                        if as_column:
+                            v = [[[x] for x in r] if len(set(r)) != 1 else r for r in v]       # the ragged form of the same table
+                        else:
+                            v = None
                 if isinstance(v, list) and len(v) >= 3 and all(isinstance(r, list) and len(r) == 3 for r in v):
                     lits.append(v)
             elif isinstance(n, ast.AugAssign) and isinstance(n.op, ast.Div) and isinstance(n.target, ast.Name):
